@@ -119,6 +119,13 @@ func (env *CEnv) eval(e *CExpr) Val {
 			}
 		}
 		body := sub.evalBool(e.X)
+		if e.Expand {
+			t, ok := expandRange(bound, body, true, 80)
+			if !ok {
+				fail("%s: forallx needs one variable with constant bounds (at most 80 values)", e.Pos)
+			}
+			return boolSV(t)
+		}
 		if e.Kind == "forall" {
 			return boolSV(Forall(bound, body))
 		}
@@ -140,6 +147,18 @@ func (env *CEnv) eval(e *CExpr) Val {
 	case "bin":
 		return env.binary(e)
 	case "field":
+		if e.X.Kind == "ident" && e.X.Name == "spec" {
+			if sig, ok := c.eng.spec.sigs[e.Name]; ok && len(sig.Args) == 0 {
+				t := Sym(e.Name, sig.Res)
+				if sig.Res == SInt {
+					return intSV(t)
+				}
+				if sig.Res == SBool {
+					return boolSV(t)
+				}
+				return SV{t, nil}
+			}
+		}
 		// package-qualified constant / variable
 		if e.X.Kind == "ident" {
 			if _, isVal := env.tryIdent(e.X); !isVal {
@@ -613,6 +632,9 @@ func (env *CEnv) call(e *CExpr) Val {
 			return sv
 		}
 		fail("%s: abstract() of %T", e.Pos, v)
+	case "strof":
+		v := env.eval(e.Args[0])
+		return SV{c.strOf(env.state(), v), nil}
 	case "unhex":
 		// unhex(s): the byte string denoted by the hex digits of the string/view s
 		v := env.asView(env.eval(e.Args[0]), e)
